@@ -38,6 +38,9 @@ pub fn resolve_addr(
 
     let addr = defs.addr_directives.get_mut(item_ref);
     let prev_value = addr.address.clone();
+
+    #[cfg(hlorenzi_customasm_verif)]
+    crate::verif::note("prev", crate::verif::V::S(prev_value.verif_to_decimal()));
     addr.address = value;
 
 
